@@ -9,6 +9,7 @@ package parser
 import (
 	"errors"
 	"fmt"
+	"math"
 
 	"k8s.io/apimachinery/pkg/apis/meta/v1/unstructured"
 	"k8s.io/apimachinery/pkg/runtime"
@@ -80,6 +81,16 @@ func resourceInfoToK8sObject(info *resource.Info, l logger.Logger, muteErrsAndWa
 			fpErr := malformedYamlDoc(info.Source, 0, -1, fmt.Errorf("%s:  %w", errStr, err))
 			logError(l, fpErr, muteErrsAndWarns)
 			return nil, fpErr
+		}
+		if resObject.Kind == AdminNetworkPolicy {
+			// spec.priority is an int32; a larger number in the manifest is silently truncated by the conversion and may wrap
+			// around into the valid range: keep it out of range so that it is rejected like any other invalid priority
+			if p, found, _ := unstructured.NestedInt64(unstructuredObj.Object, "spec", "priority"); found && int64(int32(p)) != p {
+				resObject.AdminNetworkPolicy.Spec.Priority = math.MaxInt32
+				if p < 0 {
+					resObject.AdminNetworkPolicy.Spec.Priority = math.MinInt32
+				}
+			}
 		}
 		resObject.initDefaultNamespace()
 	} else {
